@@ -227,8 +227,13 @@ class StingyConfigurator(pg.All):
     def __init__(self, *propositions: typing.List[typing.Union[puan.Proposition, str]], id: str = None):
         super().__init__(*propositions, variable=id)
 
-    @property
-    @functools.lru_cache
+    def __getstate__(self):
+        # the cached polyhedron is derived data and is not part of the configurator's state
+        state = self.__dict__.copy()
+        state.pop("ge_polyhedron", None)
+        return state
+
+    @functools.cached_property
     def ge_polyhedron(self) -> pnd.ge_polyhedron_config:
 
         """
@@ -267,7 +272,6 @@ class StingyConfigurator(pg.All):
             )
         )
 
-    @functools.lru_cache
     def leafs(self) -> typing.List[puan.variable]:
 
         """
